@@ -1822,4 +1822,82 @@ theorem ratIO_scanShrinks (tol : Rat) : ScanShrinks (ratIO tol) := by
   have h3 := splitSign_length t
   rw [h1]; omega
 
+/-! ### bytes ↔ tokens: any white-space layout of a token list tokenizes back to it -/
+
+/-- a token as it appears in a file: non-empty, no white space inside -/
+def CleanTok (t : Tok) : Prop := t ≠ [] ∧ ∀ c ∈ t, isWs c = false
+/-- a separator: at least one white-space character -/
+def Sep (w : List Char) : Prop := w ≠ [] ∧ ∀ c ∈ w, isWs c = true
+
+/-- the bytes of a file: optional leading white space is added by the caller; every token is followed by a separator -/
+def render : List (Tok × List Char) → List Char
+  | [] => []
+  | (t, w) :: r => t ++ w ++ render r
+
+theorem tokenizeAux_tok : ∀ (t : Tok) (rest : List Char) (cur : Tok), (∀ c ∈ t, isWs c = false) →
+    tokenizeAux (t ++ rest) cur = tokenizeAux rest (t.reverse ++ cur)
+  | [], _, _, _ => by simp
+  | c :: t, rest, cur, h => by
+    have hc : isWs c = false := h c (List.mem_cons_self)
+    have ih := tokenizeAux_tok t rest (c :: cur) (fun x hx => h x (List.mem_cons_of_mem _ hx))
+    simp only [List.cons_append, tokenizeAux, hc, Bool.false_eq_true, if_false, ih, List.reverse_cons, List.append_assoc]
+    simp
+
+theorem tokenizeAux_ws : ∀ (w rest : List Char), (∀ c ∈ w, isWs c = true) → tokenizeAux (w ++ rest) [] = tokenizeAux rest []
+  | [], _, _ => by simp
+  | c :: w, rest, h => by
+    have hc : isWs c = true := h c (List.mem_cons_self)
+    have ih := tokenizeAux_ws w rest (fun x hx => h x (List.mem_cons_of_mem _ hx))
+    simp [tokenizeAux, hc, ih]
+
+theorem tokenizeAux_sep (w rest : List Char) (cur : Tok) (hw : Sep w) (hcur : cur ≠ []) :
+    tokenizeAux (w ++ rest) cur = cur.reverse :: tokenizeAux rest [] := by
+  obtain ⟨hne, hall⟩ := hw
+  cases w with
+  | nil => exact absurd rfl hne
+  | cons c w =>
+    have hc : isWs c = true := hall c (List.mem_cons_self)
+    have h2 := tokenizeAux_ws w rest (fun x hx => hall x (List.mem_cons_of_mem _ hx))
+    cases cur with
+    | nil => exact absurd rfl hcur
+    | cons a b => simp [tokenizeAux, hc, h2]
+
+/-- **any layout**: tokens separated (and followed) by arbitrary non-empty white space, after arbitrary leading white
+    space, tokenize back to exactly the token list -/
+theorem tokenize_render (lead : List Char) (hlead : ∀ c ∈ lead, isWs c = true) :
+    ∀ (l : List (Tok × List Char)), (∀ p ∈ l, CleanTok p.1 ∧ Sep p.2) → tokenize (lead ++ render l) = l.map (·.1) := by
+  intro l hl
+  unfold tokenize
+  rw [tokenizeAux_ws lead _ hlead]
+  induction l with
+  | nil => simp [render, tokenizeAux]
+  | cons p l ih =>
+    obtain ⟨t, w⟩ := p
+    have hp := hl (t, w) (List.mem_cons_self)
+    simp only [render, List.append_assoc]
+    rw [tokenizeAux_tok t _ [] hp.1.2, List.append_nil,
+      tokenizeAux_sep w (render l) t.reverse hp.2 (by simpa using hp.1.1)]
+    simp only [List.reverse_reverse, List.map_cons]
+    rw [ih (fun q hq => hl q (List.mem_cons_of_mem _ hq))]
+
+/-- the round trip at the level of bytes: whatever white space the writer puts between and after the tokens of
+    `wr x`, the reader applied to the tokenized bytes returns `x` and leaves nothing unread -/
+theorem roundtrip_bytes {α} (rd : Rd α) (wr : α → Stream) (x : α) (h : RoundTrips rd wr x)
+    (lead : List Char) (hlead : ∀ c ∈ lead, isWs c = true) (l : List (Tok × List Char))
+    (hl : ∀ p ∈ l, CleanTok p.1 ∧ Sep p.2) (hx : l.map (·.1) = wr x) :
+    rd (tokenize (lead ++ render l)) = .ok x [] := by
+  rw [tokenize_render lead hlead l hl, hx]
+  simpa using h []
+
+theorem printN_clean (n : Nat) : CleanTok (printN n) := by
+  refine ⟨?_, ?_⟩
+  · have := digits_ne_nil n
+    simpa [printN] using this
+  · intro c hc
+    simp only [printN, List.mem_map] at hc
+    obtain ⟨d, hd, rfl⟩ := hc
+    have h10 := digits_lt10 n d hd
+    have : d = 0 ∨ d = 1 ∨ d = 2 ∨ d = 3 ∨ d = 4 ∨ d = 5 ∨ d = 6 ∨ d = 7 ∨ d = 8 ∨ d = 9 := by omega
+    rcases this with rfl | rfl | rfl | rfl | rfl | rfl | rfl | rfl | rfl | rfl <;> decide
+
 end AITB.Codec
